@@ -10,7 +10,7 @@
 //!   buildfile <main> [inc..]    payload ignored                      -> build_file(main, {inc..})
 //!   hex <code|eeprom> [prior]   (prior: what the output path already holds: long (default) | none | empty | prefix | same) payload = hex string of image bytes  -> write_*_hex to a temp file, returns its text
 //!   tree <main> [inc..]         payload = files, each introduced by a line `@@ <relative path>`; `@ROOT@` in a file stands for
-//!                               the directory they are written to -> fresh directory, made the working directory,
+//!                               the directory they are written to; `@@ <link> -> <target>` makes a symbolic link -> fresh directory, made the working directory,
 //!                               build_file(main, {inc..}), directory removed
 //!   buildcwd <dir>              payload = assembler source           -> build_str with <dir> as working directory
 use std::{fs, panic, path::PathBuf};
@@ -88,7 +88,13 @@ fn run_job(text: &str, scratch: &PathBuf) -> String {
                     if let Some(d) = p.parent() {
                         fs::create_dir_all(d).unwrap();
                     }
-                    fs::write(&p, t.replace("@ROOT@", &root_s)).unwrap();
+                    // `@@ <link> -> <target>`: a symbolic link (target as written, i.e. relative to the directory of the link)
+                    let ps = p.to_string_lossy().to_string();
+                    if let Some((link, target)) = ps.split_once(" -> ") {
+                        std::os::unix::fs::symlink(target, link).unwrap();
+                    } else {
+                        fs::write(&p, t.replace("@ROOT@", &root_s)).unwrap();
+                    }
                 }
             };
             for l in payload.split_inclusive('\n') {
